@@ -17,7 +17,7 @@ def base_types():
     ]
 
 
-WRAPS = ["ptr", "cptr", "vptr", "lref", "rref", "arr", "arr3", "fn0", "fn1", "fnv"]
+WRAPS = ["ptr", "cptr", "vptr", "lref", "rref", "arr", "arr3", "fn0", "fn1", "fnv", "arrs", "fnv0"]
 
 
 def wrap(t, w):
@@ -31,12 +31,19 @@ def wrap(t, w):
         return None if is_ref else Reference(t)
     if w == "rref":
         return None if is_ref else MoveReference(t)
-    if w in ("arr", "arr3"):
+    if w in ("arr", "arr3", "arrs"):
         if is_ref or isinstance(t, FunctionType):
             return None
         if isinstance(t, Array) and t.size is None:
             return None  # only the outermost bound may be omitted
-        return Array(t, None if w == "arr" else Value([Token("3")]))
+        if w == "arrs":
+            # a bound made of two word-like tokens: the formatter must keep them apart
+            return Array(t, Value([Token("sizeof", "sizeof"), Token("hdr", "NAME"), Token("+", "+"), Token("1", "INT_CONST_DEC")]))
+        return Array(t, None if w == "arr" else Value([Token("3", "INT_CONST_DEC")]))
+    if w == "fnv0":
+        if isinstance(t, (Array, FunctionType)):
+            return None
+        return FunctionType(t, [], vararg=True)
     if w in ("fn0", "fn1", "fnv"):
         if isinstance(t, (Array, FunctionType)):
             return None
